@@ -256,6 +256,10 @@ def cases(tier, seed):
                 if q and (i + rows) % 2 and cols % 8 == 0:
                     continue
                 yield c(fmt="max", cols=cols, rows=rows, how=how, mode=modes[(i + rows + len(how)) % len(modes)])
+    # pictures whose byte count needs all sixteen bits of the header's length field (the height is computed from it)
+    for cols, rows in ((256, 1023), (256, 1024), (256, 1025), (512, 512), (128, 2304), (256, 2047), (512, 1023), (8, 65535)):
+        if not q or cols != 8:
+            yield c(fmt="max", cols=cols, rows=rows, how="length", mode=modes[(cols + rows) % len(modes)], pipes=(rows == 1024))
     for mode in modes:
         yield c(fmt="max", cols=256, rows=4, how="length", mode=mode, pipes=(mode == "bw"))
         yield c(fmt="max", cols=16, rows=3, how="rows", mode=mode, skip=9)
